@@ -368,13 +368,13 @@ fn ss_sim(n: usize, shape: usize) -> SetSpeedTrainSim {
 pub fn subjects() -> Vec<&'static str> {
     vec![
         "FuelConverter", "FuelConverter:stepped", "Generator", "ElectricDrivetrain", "ReversibleEnergyStorage", "Locomotive:conv", "Locomotive:bel", "Locomotive:hybrid", "Locomotive:dummy", "Locomotive:conv:stepped", "Consist", "Consist:stepped", "PowerTrace", "SpeedTrace", "RailVehicle", "TrainConfig", "TrainSimBuilder",
-        "TrainParams", "PathTpc:unfinished", "PathTpc:finished", "FricBrake", "Network", "EstTimeNet", "TimedPath", "SetSpeedTrainSim:default", "SpeedLimitTrainSim:valid", "LocomotiveSimulation:0", "LocomotiveSimulation:1", "LocomotiveSimulation:2", "ConsistSimulation:0", "ConsistSimulation:1", "ConsistSimulation:2", "SetSpeedTrainSim:0",
+        "TrainParams", "PathTpc:unfinished", "PathTpc:finished", "FricBrake", "Network", "EstTimeNet", "TimedPath", "SetSpeedTrainSim:default", "SpeedLimitTrainSim:valid", "LocomotiveSimulation:0", "LocomotiveSimulation:1", "LocomotiveSimulation:2", "LocomotiveSimulation:3", "LocomotiveSimulation:4", "ConsistSimulation:0", "ConsistSimulation:1", "ConsistSimulation:2", "ConsistSimulation:3", "ConsistSimulation:4", "SetSpeedTrainSim:0",
         "SetSpeedTrainSim:1", "SetSpeedTrainSim:2", "SpeedLimitTrainSim:0", "SpeedLimitTrainSim:1", "SpeedLimitTrainSim:2",
     ]
 }
 
 fn is_sim(s: &str) -> bool {
-    s.ends_with(":0") || s.ends_with(":1") || s.ends_with(":2")
+    s.rsplit(':').next().map(|x| x.parse::<usize>().is_ok()).unwrap_or(false)
 }
 
 pub fn run_case(c: &Case, n_steps: usize, checks: &mut u64) -> (Fails, u64) {
@@ -447,13 +447,32 @@ pub fn run_case(c: &Case, n_steps: usize, checks: &mut u64) -> (Fails, u64) {
         "SetSpeedTrainSim:default" => obj!(SetSpeedTrainSim::default()),
         "SpeedLimitTrainSim:valid" => obj!(SpeedLimitTrainSim::valid()),
         s if s.starts_with("LocomotiveSimulation:") => {
-            let loco = if shape == 1 { Locomotive::default_battery_electric_loco() } else { Locomotive::default() };
-            let root = LocomotiveSimulation::new(loco, power_trace(n_steps, shape), Some(1));
+            // shapes 3 / 4: hybrid unit (full battery, rising demand) / hybrid with a half-full battery (traction and braking)
+            let loco = match shape {
+                1 => Locomotive::default_battery_electric_loco(),
+                3 => Locomotive::default_hybrid_electric_loco(),
+                4 => {
+                    let mut h = Locomotive::default_hybrid_electric_loco();
+                    if let Some(r) = h.reversible_energy_storage_mut() {
+                        r.state.soc = 0.5 * uc::R;
+                    }
+                    h
+                }
+                _ => Locomotive::default(),
+            };
+            let root = LocomotiveSimulation::new(loco, power_trace(n_steps, if shape >= 3 { shape - 3 } else { shape }), Some(1));
             resume_check(&c.subject, &root, c.checkpoint, fmt, file, checks)
         }
         s if s.starts_with("ConsistSimulation:") => {
-            let con = if shape == 0 { Consist::default() } else { consist(if shape == 1 { 2 } else { 4 }, Some(1)) };
-            let root = ConsistSimulation::new(con, power_trace(n_steps, shape), Some(1));
+            // shapes 3 / 4: consists with a hybrid unit (hybrid+conv RESGreedy, hybrid+BEL+conv Proportional)
+            let con = match shape {
+                0 => Consist::default(),
+                1 => consist(2, Some(1)),
+                2 => consist(4, Some(1)),
+                3 => consist(5, Some(1)),
+                _ => consist(6, Some(1)),
+            };
+            let root = ConsistSimulation::new(con, power_trace(n_steps, if shape >= 3 { shape - 3 } else { shape }), Some(1));
             resume_check(&c.subject, &root, c.checkpoint, fmt, file, checks)
         }
         s if s.starts_with("SetSpeedTrainSim:") => {
@@ -484,7 +503,7 @@ impl Prop for C17 {
         "fault_enumeration"
     }
     fn rule(&self, tier: Tier) -> String {
-        format!("E-CKPT: {} catalogue entries (the four components default and stepped, Locomotive conv/BEL/hybrid/dummy, Consist default and stepped, PowerTrace, SpeedTrace, RailVehicle, TrainConfig, TrainSimBuilder, TrainParams, PathTpc unfinished/finished, FricBrake, Network, EstTimeNet, timed path, SetSpeedTrainSim::default, SpeedLimitTrainSim::valid, and three run shapes each of LocomotiveSimulation / ConsistSimulation / SetSpeedTrainSim / SpeedLimitTrainSim) x formats {{yaml, json, bin}} x {{string/bytes API, to_file/from_file onto a path that already holds a longer file}} x EVERY step index 0..{} of the runs as the checkpoint position (checkpoint = crash point). Oracle: save and load succeed, load(save(x)) == load(save(load(save(x)))), the reloaded object describes the same object, and the run resumed from the reloaded copy reproduces every remaining step and the final state (bit-exact for yaml/bin, 1e-9 relative for json). distinct_nontrivial = distinct (subject, format, outcome class) signatures.", subjects().len(), n_steps(tier))
+        format!("E-CKPT: {} catalogue entries (the four components default and stepped, Locomotive conv/BEL/hybrid/dummy, Consist default and stepped, PowerTrace, SpeedTrace, RailVehicle, TrainConfig, TrainSimBuilder, TrainParams, PathTpc unfinished/finished, FricBrake, Network, EstTimeNet, timed path, SetSpeedTrainSim::default, SpeedLimitTrainSim::valid, and three run shapes each of LocomotiveSimulation / ConsistSimulation / SetSpeedTrainSim / SpeedLimitTrainSim, plus two hybrid-unit shapes each of LocomotiveSimulation / ConsistSimulation) x formats {{yaml, json, bin}} x {{string/bytes API, to_file/from_file onto a path that already holds a longer file}} x EVERY step index 0..{} of the runs as the checkpoint position (checkpoint = crash point). Oracle: save and load succeed, load(save(x)) == load(save(load(save(x)))), the reloaded object describes the same object, and the run resumed from the reloaded copy reproduces every remaining step and the final state (bit-exact for yaml/bin, 1e-9 relative for json). distinct_nontrivial = distinct (subject, format, outcome class) signatures.", subjects().len(), n_steps(tier))
     }
     fn assumptions(&self) -> Vec<String> {
         vec![
